@@ -280,7 +280,7 @@ func WorldsSpecial(yield func(u *Universe, desc string)) {
 	roots := []string{"", "http://h/a(v2)/root.json", "http://h/a%2Fb/root.json", "http://h/it's!*/root.json", "http://h/dir/root[1].json"}
 	bases := []string{"http://h/b(1)/base.json", "http://h/b%2Fc/base.json", "http://h/plain/base.json"}
 	eids := []string{"e(1).json", "x%2Fy.json", "e.json", "http://h/abs(2)/e.json"}
-	refs := []string{"#/$defs/t", "#k", "#/$defs/e", "e(1).json", "e(1).json#k", "x%2Fy.json", "x%2Fy.json#/$defs/t", "x/y.json", "e.json#k", "http://h/abs(2)/e.json#k", "e%281%29.json", "base.json#k", "root.json#k", "./e(1).json#/$defs/t"}
+	refs := []string{"#/$defs/a+b", "#/$defs/a%20b", "#/$defs/a%2Bb", "root.json#/$defs/a+b", "#/allOf/9223372036854775808", "#/allOf/18446744073709551615", "#/allOf/0", "#/$defs/t", "#k", "#/$defs/e", "e(1).json", "e(1).json#k", "x%2Fy.json", "x%2Fy.json#/$defs/t", "x/y.json", "e.json#k", "http://h/abs(2)/e.json#k", "e%281%29.json", "base.json#k", "root.json#k", "./e(1).json#/$defs/t"}
 	for _, base := range bases {
 		for _, rid := range roots {
 			for _, eid := range eids {
@@ -294,7 +294,7 @@ func WorldsSpecial(yield func(u *Universe, desc string)) {
 							ptr = "#/$defs/e/$defs/probe"
 						}
 						e := fmt.Sprintf(`{"$id":%q,"const":3,"$defs":{%s}}`, eid, eDefs)
-						defs := `"t":{"const":1},"a":{"$anchor":"k","const":2},"e":` + e
+						defs := `"t":{"const":1},"a":{"$anchor":"k","const":2},"a+b":{"const":6},"a b":{"const":7},"e":` + e
 						if !inE {
 							defs += `,"probe":` + probe
 						}
@@ -302,9 +302,9 @@ func WorldsSpecial(yield func(u *Universe, desc string)) {
 						if rid != "" {
 							parts = append(parts, fmt.Sprintf(`"$id":%q`, rid))
 						}
-						parts = append(parts, `"type":"object"`, `"properties":{"p":{"$ref":"`+ptr+`"}}`, `"$defs":{`+defs+`}`)
+						parts = append(parts, `"allOf":[{"type":"object"}]`, `"type":"object"`, `"properties":{"p":{"$ref":"`+ptr+`"}}`, `"$defs":{`+defs+`}`)
 						u := &Universe{Root: "{" + strings.Join(parts, ",") + "}", Base: base, Docs: map[string]string{}, Kind: "world-special"}
-						for _, v := range []string{"1", "2", "3", "4", "5", "9", `{"p":1}`} {
+						for _, v := range []string{"1", "2", "3", "4", "5", "6", "7", "9", `{"p":1}`} {
 							u.Insts = append(u.Insts, `{"p":`+v+`}`)
 						}
 						yield(u, fmt.Sprintf("base=%q rootid=%q eid=%q inE=%v ref=%q", base, rid, eid, inE, ref))
